@@ -259,6 +259,34 @@ func configs(c *lib.Ctx) []*config {
 		crow := cross([]string{vE, i1, i2}, vals)
 		add(&config{sc: sc, Rows: [][]row{cross(vals), crow}, Ins: [][]row{cross(vals), crow}}, 4, 6, 1, 2)
 	}
+	for _, ms := range [][2]string{{modeBlock, modeBlock}, {modeCascade, modeBlock}, {modeBlock, modeCascade}, {modeCascadeUpdate, modeBlock}} {
+		// 9. TWO source tables on one target key: one through an encoded index
+		// (index(fk) has the key appended), one through its own single column KEY
+		// (un-encoded index keys); the target's FkToHere list is walked in creation
+		// order, so state carried from one entry to the next (e.g. an encoded copy
+		// of the key) meets the other kind of index. Zero-byte values make the
+		// encoded and the raw key differ. Both creation orders.
+		for _, order := range []string{"index-first", "key-first"} {
+			vals := []string{vA, vA0, v0}
+			c1 := tableDef{Name: "c1", Cols: []string{"ck", "fk"}, Keys: [][]int{{0}},
+				Fks:   []fkDef{{Cols: []int{1}, To: 0, ToCols: []int{0}, Mode: ms[0]}},
+				Admin: "create c1 (ck, fk) key(ck) index(fk) in p(pk)" + sfx(ms[0])}
+			c2 := tableDef{Name: "c2", Cols: []string{"fk", "x"}, Keys: [][]int{{0}},
+				Fks:   []fkDef{{Cols: []int{0}, To: 0, ToCols: []int{0}, Mode: ms[1]}},
+				Admin: "create c2 (fk, x) key(fk) in p(pk)" + sfx(ms[1])}
+			c1rows := cross([]string{i1}, append([]string{vE}, vals...))
+			c2rows := cross(vals, []string{vE})
+			tables := []tableDef{{Name: "p", Cols: []string{"pk"}, Keys: [][]int{{0}},
+				Admin: "create p (pk) key(pk)"}, c1, c2}
+			rows := [][]row{cross(vals), c1rows, c2rows}
+			if order == "key-first" {
+				tables = []tableDef{tables[0], c2, c1}
+				rows = [][]row{rows[0], c2rows, c1rows}
+			}
+			sc := &schemaDef{Name: "two-sources/" + ms[0] + "," + ms[1] + "/" + order, Tables: tables}
+			add(&config{sc: sc, Rows: rows, Ins: rows}, 3, 4, 0, 1)
+		}
+	}
 	return out
 }
 
